@@ -161,6 +161,9 @@ pub fn record(seed: u64, nev: usize, out: &str) {
         // tiny responses for the scale families (means around 1e-6: variance mu^2 far below any absolute floor)
         let tiny = (e / 18) % 3 == 1 && (fam == "Gamma" || fam == "Exponential") && (e / 54) % 2 == 0;
         if tiny { beta[0] = -14.0 + rng.below(10) as f64 / 10.0; for j in 1..p { beta[j] *= 0.25; } }
+        // responses so large that the start value mean(y) overflows the log link: the fit must end in Err or in a finite, correct answer
+        let huge = (e / 18) % 3 == 0 && (e / 54) % 3 == 1 && fam != "Gaussian" && fam != "Bernoulli";
+        if huge { beta[0] = 6.8; for j in 1..p { beta[j] *= 0.1; } }
         if large { beta[0] = match fam { "Gaussian" => 80.0, "Bernoulli" => beta[0], _ => 4.0 + rng.below(8) as f64 / 10.0 }; for j in 1..p { beta[j] *= 0.25; } }
         let history: u8 = ((e / 6) % 3) as u8;
         let refit = history != 0;
@@ -177,7 +180,7 @@ pub fn record(seed: u64, nev: usize, out: &str) {
         }).collect();
         let tol = [1e-8, 1e-11, 1e-14][rng.below(3) as usize];
         let r = fit_hh(fam, &x, &y, if use_w { Some(&w[..]) } else { None }, if use_o { Some(&o[..]) } else { None }, alpha, tol, 200, history);
-        let base = json!({"family": fam, "design": kind, "scale": if large { "large-mean" } else if tiny { "tiny-mean" } else { "unit" }, "history": if history == 1 { "refit" } else if history == 2 { "retry-after-failed-fit" } else { "fresh" }, "n": n, "p": p, "weights": use_w, "offset": use_o, "alpha_class": if alpha == 0.0 { 0 } else { 1 }, "tol_log10": tol.log10().round() as i64});
+        let base = json!({"family": fam, "design": kind, "scale": if huge { "huge-mean" } else if large { "large-mean" } else if tiny { "tiny-mean" } else { "unit" }, "history": if history == 1 { "refit" } else if history == 2 { "retry-after-failed-fit" } else { "fresh" }, "n": n, "p": p, "weights": use_w, "offset": use_o, "alpha_class": if alpha == 0.0 { 0 } else { 1 }, "tol_log10": tol.log10().round() as i64});
         let mut ev = base.as_object().unwrap().clone();
         match r {
             Some(Ok(ft)) => {
@@ -199,8 +202,9 @@ pub fn record(seed: u64, nev: usize, out: &str) {
                     let m = match fam { "Gaussian" => h, "Bernoulli" => 1.0 / (1.0 + (-h).exp()), _ => h.exp() }; (pr[i] - m).abs() <= 1e-12 * m.abs().max(1.0) }) };
                 // the reported deviance is the family's deviance at the fitted means (weighted fits included), to within the tolerance
                 let dd = deviance_def(fam, &y, &ft.pred);
-                // (the crate evaluates it at the means of the last scoring step, one relative change below the tolerance away)
-                ev.insert("deviance_is_definition".into(), json!((ft.dev - dd).abs() <= (1e-9 + 16.0 * tol) * dd.abs().max(1.0)));
+                // (the crate evaluates it at the means of the previous scoring step; for weighted fits the unweighted deviance is not stationary at
+                // the solution, so the two differ to first order in the remaining coefficient error: same bound as for the score, 4 sqrt(tol))
+                ev.insert("deviance_is_definition".into(), json!((ft.dev - dd).abs() <= (1e-9 + 4.0 * tol.sqrt()) * dd.abs().max(1.0)));
                 ev.insert("out".into(), json!("ok")); ev.insert("score_rel_log2".into(), json!(if rel <= 0.0 { -1074 } else { rel.log2().ceil() as i64 }));
                 ev.insert("finite".into(), json!(ft.coef.iter().chain(ft.se.iter()).all(|v| v.is_finite()))); ev.insert("predict_is_inverse_link".into(), json!(predok));
             }
